@@ -212,6 +212,69 @@ func (in *Interp) runeCount(r *Rope) (int, bool) {
 }
 
 // format implements Sprintf semantics over ropes.
+// formatV formats with a format string that may contain symbolic bytes (a name concatenated
+// into the format). Every symbolic byte is tested for being '%' (a fork): if one may be, the
+// result on that side is an opaque "garbled" piece - what fmt prints then depends on the bytes
+// that follow and is not modelled; otherwise the symbolic bytes are literal text and the
+// constant chunks between them are formatted in turn, consuming the operands in order.
+func (in *Interp) formatV(fr *frame, fv value, args []value) value {
+	if s, ok := fv.(string); ok {
+		return in.format(fr, s, args)
+	}
+	r := in.ropeOf(fv)
+	var out []Atom
+	chunk := []byte{}
+	flush := func() {
+		if len(chunk) == 0 {
+			return
+		}
+		f := string(chunk)
+		chunk = chunk[:0]
+		// a chunk must not end inside a verb
+		if i := strings.LastIndexByte(f, '%'); i >= 0 {
+			rest := strings.TrimLeft(f[i+1:], "+-# 0123456789.")
+			if rest == "" && (i == 0 || f[i-1] != '%' || strings.Count(f[:i], "%")%2 == 0) {
+				panic(unsupported{"symbolic byte inside a formatting verb"})
+			}
+		}
+		n := 0
+		for j := 0; j < len(f); j++ {
+			if f[j] == '%' {
+				if j+1 < len(f) && f[j+1] == '%' {
+					j++
+					continue
+				}
+				n++
+			}
+		}
+		if n > len(args) {
+			n = len(args)
+		}
+		out = append(out, in.ropeOf(in.format(fr, f, args[:n])).atoms...)
+		args = args[n:]
+	}
+	for _, a := range r.atoms {
+		if a.op != nil {
+			panic(unsupported{"rendered piece inside a format string"})
+		}
+		if a.t.IsConst() {
+			chunk = append(chunk, byte(a.t.val))
+			continue
+		}
+		if in.branch(in.tb.Eq(a.t, in.tb.BV(SBV8, '%'))) {
+			in.path.labels["format-string"] = "contains a symbolic % byte"
+			return &Rope{atoms: []Atom{in.newOpaque("fmt-garbled", fv)}}
+		}
+		flush()
+		out = append(out, a)
+	}
+	flush()
+	if len(args) > 0 {
+		out = append(out, in.litAtoms("%!(EXTRA)")...)
+	}
+	return normStr(&Rope{atoms: out})
+}
+
 func (in *Interp) format(fr *frame, f string, args []value) value {
 	var out []Atom
 	argi := 0
@@ -381,10 +444,10 @@ func (in *Interp) writeTo(fr *frame, w value, data value) value {
 
 func init() {
 	externals["fmt.Sprintf"] = func(in *Interp, fr *frame, args []value) value {
-		return in.format(fr, in.concStr(args[0], "format"), sliceArgs(args[1]))
+		return in.formatV(fr, args[0], sliceArgs(args[1]))
 	}
 	externals["fmt.Errorf"] = func(in *Interp, fr *frame, args []value) value {
-		return in.newError(in.format(fr, in.concStr(args[0], "format"), sliceArgs(args[1])))
+		return in.newError(in.formatV(fr, args[0], sliceArgs(args[1])))
 	}
 	externals["errors.New"] = func(in *Interp, fr *frame, args []value) value {
 		return in.newError(args[0])
@@ -396,7 +459,7 @@ func init() {
 		return in.sprint(fr, sliceArgs(args[0]), true)
 	}
 	externals["fmt.Fprintf"] = func(in *Interp, fr *frame, args []value) value {
-		return in.writeTo(fr, args[0], in.format(fr, in.concStr(args[1], "format"), sliceArgs(args[2])))
+		return in.writeTo(fr, args[0], in.formatV(fr, args[1], sliceArgs(args[2])))
 	}
 	externals["fmt.Fprint"] = func(in *Interp, fr *frame, args []value) value {
 		return in.writeTo(fr, args[0], in.sprint(fr, sliceArgs(args[1]), false))
